@@ -4,6 +4,7 @@ import (
 	"bytes"
 	"encoding/json"
 	"fmt"
+	"math"
 	"math/rand"
 	"net/url"
 	"os"
@@ -34,8 +35,9 @@ type c02AssnC struct {
 }
 type c02Vec struct {
 	Cfg struct {
-		Mid  int64 `json:"mid"`
-		Skew int64 `json:"skew"`
+		Mid   int64  `json:"mid"`
+		Skew  int64  `json:"skew"`
+		Delay string `json:"delay"` // "max": MaxIssueDelay is math.MaxInt64 ns, IssueInstants are relative to now - that
 	} `json:"cfg"`
 	In struct {
 		Entry   string     `json:"entry"`
@@ -81,12 +83,26 @@ func renderInstant(now time.Time, offMs int64, rng *rand.Rand) string {
 	}
 }
 
+// c02MaxDelayMs is the largest MaxIssueDelay in whole milliseconds (the setting itself keeps its sub-millisecond rest).
+const c02MaxDelayMs = int64(math.MaxInt64 / int64(time.Millisecond))
+
 func c02Build(v *c02Vec, now time.Time, rng *rand.Rand) []byte {
 	inst := func(class string, off int64) *string {
 		if class == "none" {
 			return nil
 		}
 		return sp(renderInstant(now, off, rng))
+	}
+	// IssueInstants: under the largest delay they lie that delay back
+	iiBase := now
+	if v.Cfg.Delay == "max" {
+		iiBase = now.Add(-time.Duration(c02MaxDelayMs) * time.Millisecond)
+	}
+	instII := func(class string, off int64) *string {
+		if class == "none" {
+			return nil
+		}
+		return sp(renderInstant(iiBase, off, rng))
 	}
 	var assns []*etree.Element
 	for k, a := range v.Abs.Assns {
@@ -101,7 +117,7 @@ func c02Build(v *c02Vec, now time.Time, rng *rand.Rand) []byte {
 			confs = append(confs, cs)
 		}
 		assns = append(assns, buildAssertion(AssnSpec{
-			ID: fmt.Sprintf("id-assn-%d", k+1), IssueInstant: inst(ac.II, a.II), Issuer: sp(idpEntityID),
+			ID: fmt.Sprintf("id-assn-%d", k+1), IssueInstant: instII(ac.II, a.II), Issuer: sp(idpEntityID),
 			NameID: sp(fmt.Sprintf("user%d@example.com", k+1)), Confs: confs,
 			NotBefore: inst(ac.NB, a.NB), NotOnOrAfter: inst(ac.NOOA, a.NOOA), Audiences: []string{spEntityID},
 			AuthnInstant: sp(now.Format(time.RFC3339)), SessionIndex: "sess-1",
@@ -109,7 +125,7 @@ func c02Build(v *c02Vec, now time.Time, rng *rand.Rand) []byte {
 		}))
 	}
 	rs := RespSpec{
-		ID: "id-resp-1", InResponseTo: sp("id-req-1"), IssueInstant: inst(v.In.RespII, v.Abs.RespII),
+		ID: "id-resp-1", InResponseTo: sp("id-req-1"), IssueInstant: instII(v.In.RespII, v.Abs.RespII),
 		Destination: sp(spACS), Issuer: sp(idpEntityID), Status: sp(statusOK),
 		Assertions: assns, SignWith: key("idp1"),
 	}
@@ -124,7 +140,7 @@ func c02Build(v *c02Vec, now time.Time, rng *rand.Rand) []byte {
 		el.CreateAttr("ID", "id-artresp-1")
 		el.CreateAttr("InResponseTo", c02ArtReqID)
 		el.CreateAttr("Version", "2.0")
-		setAttr(el, "IssueInstant", inst(v.In.ArtII, v.Abs.ArtII))
+		setAttr(el, "IssueInstant", instII(v.In.ArtII, v.Abs.ArtII))
 		el.CreateElement("saml:Issuer").SetText(idpEntityID)
 		el.CreateElement("samlp:Status").CreateElement("samlp:StatusCode").CreateAttr("Value", statusOK)
 		el.AddChild(resp)
@@ -262,6 +278,9 @@ func c02Judge(rep *Report, v *c02Vec, key string, doc []byte, o c02Obs, now time
 
 func c02Key(v *c02Vec) string {
 	b, _ := json.Marshal(v.In)
+	if v.Cfg.Delay == "max" {
+		return fmt.Sprintf("C02:mid=max:skew=%d:%s", v.Cfg.Skew, hashKey(string(b)))
+	}
 	return fmt.Sprintf("C02:mid=%d:skew=%d:%s", v.Cfg.Mid, v.Cfg.Skew, hashKey(string(b)))
 }
 
@@ -284,17 +303,25 @@ func TestC02(t *testing.T) {
 		vecs = append(vecs, v)
 	}
 	// group by tolerance setting (package-level variables in saml)
-	groups := map[[2]int64][]*c02Vec{}
+	groups := map[[3]int64][]*c02Vec{}
 	for _, v := range vecs {
-		k := [2]int64{v.Cfg.Mid, v.Cfg.Skew}
+		k := [3]int64{v.Cfg.Mid, v.Cfg.Skew, 0}
+		if v.Cfg.Delay == "max" {
+			k[2] = 1
+		}
 		groups[k] = append(groups[k], v)
 	}
-	var keys [][2]int64
+	var keys [][3]int64
 	for k := range groups {
 		keys = append(keys, k)
 	}
 	sort.Slice(keys, func(i, j int) bool {
-		return keys[i][0] < keys[j][0] || (keys[i][0] == keys[j][0] && keys[i][1] < keys[j][1])
+		for d := 0; d < 3; d++ {
+			if keys[i][d] != keys[j][d] {
+				return keys[i][d] < keys[j][d]
+			}
+		}
+		return false
 	})
 
 	oldNow, oldMid, oldSkew := saml.TimeNow, saml.MaxIssueDelay, saml.MaxClockSkew
@@ -311,6 +338,9 @@ func TestC02(t *testing.T) {
 	saml.TimeNow = func() time.Time { return now }
 	for _, gk := range keys {
 		saml.MaxIssueDelay = time.Duration(gk[0]) * time.Millisecond
+		if gk[2] == 1 {
+			saml.MaxIssueDelay = time.Duration(math.MaxInt64)
+		}
 		saml.MaxClockSkew = time.Duration(gk[1]) * time.Millisecond
 		g := groups[gk]
 		for r := 0; r < reps; r++ {
@@ -354,6 +384,9 @@ func init() {
 		now, _ := time.Parse(time.RFC3339Nano, r.Now)
 		saml.TimeNow = func() time.Time { return now }
 		saml.MaxIssueDelay = time.Duration(r.Mid) * time.Millisecond
+		if r.Vector.Cfg.Delay == "max" {
+			saml.MaxIssueDelay = time.Duration(math.MaxInt64)
+		}
 		saml.MaxClockSkew = time.Duration(r.Skew) * time.Millisecond
 		spv := newSP(idpMetadata([]keyUse{{"signing", key("idp1").CertB64()}}))
 		o := c02Run(spv, []byte(r.XML))
